@@ -186,9 +186,9 @@ Proof. intros [-> | (g & -> & (_ & _ & H & _))]; cbn; [reflexivity|]. now rewrit
 Lemma Forall_firstn_letter n l : Forall letter l -> Forall letter (firstn n l).
 Proof. intros H. revert n. induction H; intros [|n]; cbn; constructor; auto. Qed.
 
-Lemma translate_segs_one X g :
+Lemma translate_segs_one o X g :
   s_start g = 0 -> s_end g = length X -> (s_status g = SGuess \/ s_status g = SVoid) -> s_sel g = 0%N ->
-  exists g', translate_segs translate (mkSegm X [g]) = (mkSegm X [g'], true)
+  exists g', translate_segs translate o (mkSegm X [g]) = (mkSegm X [g'], true)
              /\ s_start g' = 0 /\ s_end g' = length X /\ s_status g' = SGuess /\ s_sel g' = 0%N.
 Proof.
   intros H0 H1 H2 H3. unfold translate_segs. cbn [sg_input sg_segs translate_list]. unfold translate_one.
@@ -239,7 +239,7 @@ Proof.
     cbn. unfold ctx_ok. cbn. repeat split; auto.
     + left; reflexivity.
     + intros _. now apply HXnil.
-  - destruct (translate_segs_one X g H0 H1 H2 H3) as (g' & -> & G0 & G1 & G2 & G3).
+  - destruct (translate_segs_one (cx_opts c) X g H0 H1 H2 H3) as (g' & -> & G0 & G1 & G2 & G3).
     cbn [ctx_check]. unfold ctx_ok. cbn [ctx_with_comp cx_err cx_input cx_caret cx_opts cx_comp sg_segs].
     assert (0 < length X) by (destruct X; [congruence | cbn; lia]).
     repeat split; auto.
